@@ -14,7 +14,19 @@ verdict="CONFIRMED"
 [ "$s1" -ge 4 ] && [ "$f1" -eq 0 ] && [ "$s2" -ge 1 ] && [ "$s3" -ge 1 ] && [ "$f3" -eq 0 ] || verdict="NOT-CONFIRMED(s1=$s1 f1=$f1 s2=$s2 s3=$s3 f3=$f3)"
 echo "$c-$name: $verdict"
 if [ "$verdict" = "CONFIRMED" ]; then
-  d=/verif/seeded/$c-$name; mkdir -p $d
+  dup=$(python3 - "$sd/patch.diff" <<'PY'
+import sys, os, glob
+def sig(p):
+    return frozenset(l[1:].strip() for l in open(p, errors="replace") if l[:1] in "+-" and not l.startswith(("+++", "---")) and l[1:].strip() and not l[1:].strip().startswith("//"))
+new = sig(sys.argv[1])
+for f in glob.glob("/verif/seeded/*/patch.diff"):
+    old = sig(f)
+    if new and old and len(new & old) >= 0.8 * max(len(new), len(old)):
+        print(os.path.basename(os.path.dirname(f))); break
+PY
+)
+  if [ -n "$dup" ] && [ "$dup" != "$c-$name" ]; then echo "  DUPLICATE of $dup - not filed"; exit 0; fi
+  d=/verif/seeded/$c-$name; [ -d $d ] && [ "$dup" != "$c-$name" ] && d=/verif/seeded/$c-$name-r$R; mkdir -p $d
   cp $sd/patch.diff $sd/demo.rs $d/; cp $sd/meta.json $d/meta.agent.json; cp $log $d/confirm.log
   /verif/tools/scratchcheck.sh $d/patch.diff $c 2>&1 | grep -E "^C[0-9]+:|  rule" | sort | uniq -c | head -8
 fi
